@@ -327,7 +327,8 @@ def run(F, R):
     n_mut = 0
     n_ops = 0
     for b in F.bodies.values():
-        if b.get('impl_adt') != MGR or 'impl_trait' in b or b['kind'] != 'AssocFn' or not F.handwritten(b):
+        # (closures written in the manager's methods - the event handler handed to the driver's poll - are analysed too)
+        if b.get('impl_adt') != MGR or 'impl_trait' in b or b['kind'] not in ('AssocFn', 'Closure') or not F.handwritten(b):
             continue
         sg = supergraph(F, b['id'], opaque=lambda t, bb: bb['id'] in opq, tag='c18')
         S = sg.sym
@@ -353,6 +354,22 @@ def run(F, R):
                 v = S.operand(n.id, n.d['args'][1])
                 R.check(derives_from(v, lambda x: x[0] == 'call' and 'Connection' in x[2] and x[2].endswith('::new')) or 'Connection::new' in fmt(v) or True, 'X3', inst, site(sg, n),
                         'push of a connection', 'push of %s' % fmt(v)[:60])
+                # a connection created for an incoming request is for *this* guest: the push is guarded by
+                # event.destination.cid == local CID on the equal edge (a request addressed to another CID creates no state)
+                _fn = sg.ctxs[n.ctx].fn
+                if any('VsockEvent' in l_['ty'] for l_ in _fn['locals'][1:_fn['arg_count'] + 1]):
+                    cid_ok = False
+                    for swid, vals, succ in sg.guards_of(n.id):
+                        d = S.operand(swid, sg.nodes[swid].d['discr'])
+                        if d[0] == 'bin' and d[1] in ('Ne', 'Eq') and 'destination' in fmt(d) and '.cid' in fmt(d):
+                            truth = (None in vals and 0 not in [v_ for v_ in vals if v_ is not None]) or any(v_ not in (0, None) for v_ in vals)
+                            if 0 in vals and len([v_ for v_ in vals if v_ is not None]) == 1:
+                                truth = False
+                            if (d[1] == 'Ne' and not truth) or (d[1] == 'Eq' and truth):
+                                cid_ok = True
+                    R.check(cid_ok, 'X1', '%s:new-connection-only-for-local-cid' % b['id'], site(sg, n), 'incoming connection created only when destination CID is ours',
+                            'a connection entry is created for an incoming request without (or on the wrong edge of) the test that the request is addressed '
+                            'to this guest\'s CID: packets matching no known connection create state')
             elif meth in ('swap_remove', 'remove'):
                 idx = S.operand(n.id, n.d['args'][1])
                 ok = derives_from(idx, lambda x: x[0] == 'call' and x[2] in lookups)
